@@ -130,7 +130,11 @@ func renderDoc(sb *strings.Builder, j map[string]interface{}, ws int) {
 			if sstr(m["k"]) == "~comma" {
 				continue // nothing where a member must stand: the separating comma is all there is
 			}
-			sb.WriteString(strconv.Quote(sstr(m["k"])))
+			if sstr(m["k"]) == "~sur" {
+				sb.WriteString(`"a\ud800"`) // a key spelled with a lone surrogate escape
+			} else {
+				sb.WriteString(strconv.Quote(sstr(m["k"])))
+			}
 			sb.WriteByte(':')
 			sp()
 			renderDoc(sb, rec(m["v"]), ws)
@@ -343,7 +347,11 @@ func buildGeneric(v map[string]interface{}) interface{} {
 	case "m":
 		out := map[string]interface{}{}
 		for _, e := range seqOf(v["m"]) {
-			out[sstr(rec(e)["k"])] = buildGeneric(rec(rec(e)["v"]))
+			k := sstr(rec(e)["k"])
+			if k == "~surfix" {
+				k = "a\ufffd"
+			}
+			out[k] = buildGeneric(rec(rec(e)["v"]))
 		}
 		return out
 	}
@@ -351,6 +359,9 @@ func buildGeneric(v map[string]interface{}) interface{} {
 }
 
 func buildKey(kind, k string) reflect.Value {
+	if k == "~surfix" {
+		k = "a\ufffd"
+	}
 	rt := keyTypes[kind]
 	switch kind {
 	case "str":
